@@ -44,7 +44,7 @@ select
     columns.ordinal_position AS ordinal_position,
     columns.column_default AS column_default,
     columns.is_nullable AS is_nullable,
-case when starts_with(columns.data_type, 'DECIMAL') or columns.data_type='BIGINT' then 'NUMBER'
+case when starts_with(columns.data_type, 'DECIMAL') or columns.data_type='BIGINT' or columns.data_type='INTEGER' then 'NUMBER'
      when columns.data_type='VARCHAR' then 'TEXT'
      when columns.data_type='DOUBLE' then 'FLOAT'
      when columns.data_type='BLOB' then 'BINARY'
@@ -53,10 +53,10 @@ case when starts_with(columns.data_type, 'DECIMAL') or columns.data_type='BIGINT
      when columns.data_type='JSON' then 'VARIANT'
      else columns.data_type end as data_type,
 ext_character_maximum_length as character_maximum_length, ext_character_octet_length as character_octet_length,
-case when columns.data_type='BIGINT' then 38
+case when columns.data_type='BIGINT' or columns.data_type='INTEGER' then 38
      when columns.data_type='DOUBLE' then NULL
     else columns.numeric_precision end as numeric_precision,
-case when columns.data_type='BIGINT' then 10
+case when columns.data_type='BIGINT' or columns.data_type='INTEGER' then 10
     when columns.data_type='DOUBLE' then NULL
     else columns.numeric_precision_radix end as numeric_precision_radix,
 case when columns.data_type='DOUBLE' then NULL else columns.numeric_scale end as numeric_scale,
